@@ -300,6 +300,19 @@ def observe_python(src, idents):
             return root
         return "B" if x in PY_BUILTINS else None
 
+    module_decl = set()      # names declared by a global statement at module level (as for function scopes)
+
+    def _module_globals(stmts):
+        for st in stmts:
+            if isinstance(st, ast.Global):
+                module_decl.update(st.names)
+            elif not isinstance(st, (ast.FunctionDef, ast.AsyncFunctionDef, ast.ClassDef)):
+                for f in ("body", "orelse", "finalbody"):
+                    _module_globals(getattr(st, f, []) or [])
+                for h in getattr(st, "handlers", []) or []:
+                    _module_globals(h.body)
+
+    _module_globals(tree.body)
     for p in order:
         t = p.table
         # bound here, or declared global / nonlocal here by a statement (the module table also flags names that a
@@ -309,6 +322,8 @@ def observe_python(src, idents):
         p.names = {s.get_name() for s in t.get_symbols()
                    if not special(s.get_name())
                    and (s.is_local() or (decl and (s.is_declared_global() or s.is_nonlocal())))}
+        if p is root:
+            p.names |= module_decl
         if p.kind == "Comp":
             # a walrus target hoisted out of comprehensions at module level is flagged in the comprehension's table
             q = p.parent
@@ -373,7 +388,10 @@ class Facts:
         return chain
 
     def why_not_visited(self, node):
-        """for an expression node: the reason rope's visitors do not reach it, or reach it for the wrong scope"""
+        """for an expression node: the reason rope's visitors do not reach it ("unvisited", "lambda"), or reach it
+        on behalf of the wrong scope ("misattached"); every position between the node and its statement counts,
+        the strongest reason wins"""
+        reasons = set()
         n = node
         while n in self.parent:
             p = self.parent[n]
@@ -381,38 +399,33 @@ class Facts:
             for f, v in ast.iter_fields(p):
                 if v is n or (isinstance(v, list) and any(x is n for x in v)):
                     fld = f
-                    idx = [i for i, x in enumerate(v) if x is n][0] if isinstance(v, list) else None
             if isinstance(p, ast.Lambda):
-                return "lambda"
+                reasons.add("lambda")
             if isinstance(p, ast.comprehension):
                 if fld == "ifs":
-                    return "unvisited"
-                if fld == "iter":
-                    comp = self.parent[p]
-                    if comp.generators[0] is p:
-                        return "misattached"
-            if isinstance(p, ast.Return) or isinstance(p, (ast.AugAssign, ast.AnnAssign, ast.withitem, ast.Delete)):
-                if isinstance(p, ast.Delete):
-                    pass
-                else:
-                    return "unvisited"
+                    reasons.add("unvisited")
+                if fld == "iter" and self.parent[p].generators[0] is p:
+                    reasons.add("misattached")
+            if isinstance(p, (ast.Return, ast.AugAssign, ast.AnnAssign, ast.withitem)):
+                reasons.add("unvisited")
             if isinstance(p, (ast.For, ast.AsyncFor)) and fld in ("iter", "target"):
-                return "unvisited"
+                reasons.add("unvisited")
             if isinstance(p, ast.ExceptHandler) and fld == "type":
-                return "unvisited"
+                reasons.add("unvisited")
             if isinstance(p, ast.Assign) and fld == "targets":
-                return "unvisited"
+                reasons.add("unvisited")
             if isinstance(p, (ast.FunctionDef, ast.AsyncFunctionDef)) and fld in ("decorator_list", "returns"):
-                return "misattached"
+                reasons.add("misattached")
             if isinstance(p, (ast.arguments, ast.arg)):
-                return "misattached"
+                reasons.add("misattached")
             if isinstance(p, ast.ClassDef) and fld in ("bases", "keywords", "decorator_list"):
-                return "misattached"
-            if isinstance(p, ast.keyword) and isinstance(self.parent.get(p), ast.ClassDef):
-                return "misattached"
-            if isinstance(p, ast.stmt) or isinstance(p, SCOPE_NODES):
+                reasons.add("misattached")
+            if isinstance(p, ast.stmt) or isinstance(p, ast.Module):
                 break
             n = p
+        for r in ("unvisited", "lambda", "misattached"):
+            if r in reasons:
+                return r
         return None
 
     def enclosing_scope(self, node):
@@ -568,6 +581,25 @@ class Facts:
         return out
 
 
+# which kinds of disagreement each known departure of rope is known (and predicted by the model) to produce
+ALLOWED_WHAT = {
+    "kwonly-param": {"name-missing", "lookup"},
+    "posonly-param": {"name-missing", "lookup"},
+    "nonlocal": {"name-missing", "lookup"},
+    "aug-or-del-only-binding": {"name-missing", "lookup"},
+    "class-inherited-attribute": {"lookup"},
+    "class-self-attribute": {"lookup"},
+    "comprehension-in-class": {"lookup"},
+    "global-declaration-not-honoured": {"lookup"},
+    "lambda-no-scope": {"scope-missing", "scope-parent", "name-missing", "name-extra", "lookup"},
+    "walrus-in-comprehension": {"name-missing", "name-extra", "lookup"},
+    "unvisited-expression": {"scope-missing", "name-missing", "lookup"},
+    "misattached-expression": {"scope-parent", "scope-duplicate", "name-missing", "name-extra", "lookup"},
+    "comprehension-extent": {"scope-end"},
+    "module-level-global-unbound": {"lookup"},
+}
+
+
 # ============================================================================ the oracle pass
 def compare(src, idents, rope_scopes, rope_lines, py_scopes, tree):
     """Returns the list of disagreements between rope and CPython, each a dict with a structural `cause`."""
@@ -580,6 +612,10 @@ def compare(src, idents, rope_scopes, rope_lines, py_scopes, tree):
         rope_by_key.setdefault(r.key, r)
 
     def add(what, cause, **kw):
+        if cause in ALLOWED_WHAT and what not in ALLOWED_WHAT[cause]:
+            # a known departure explains only the kinds of failure it is known to produce
+            kw["would_be"] = cause
+            cause = "unattributed"
         d = dict(what=what, cause=cause)
         d.update(kw)
         dis.append(d)
@@ -592,16 +628,16 @@ def compare(src, idents, rope_scopes, rope_lines, py_scopes, tree):
             if p.kind == "Lambda":
                 cause = "lambda-no-scope"
             else:
-                cause = None
+                # the position of the expression itself explains it first, then a problem with an enclosing scope
+                why = facts.why_not_visited(p.node)
+                cause = {"unvisited": "unvisited-expression", "lambda": "lambda-no-scope"}.get(why)
                 anc = p.parent
                 while anc is not None and cause is None:
                     if anc.key in tree_cause:
                         cause = tree_cause[anc.key]
                     anc = anc.parent
                 if cause is None:
-                    why = facts.why_not_visited(p.node)
-                    cause = {"unvisited": "unvisited-expression", "misattached": "misattached-expression",
-                             "lambda": "lambda-no-scope"}.get(why, "unattributed")
+                    cause = {"misattached": "misattached-expression"}.get(why, "unattributed")
             tree_cause[p.key] = cause
             add("scope-missing", cause, scope=list(p.key))
             continue
@@ -731,6 +767,10 @@ def compare(src, idents, rope_scopes, rope_lines, py_scopes, tree):
                 if q is not None and q.kind == "Class" and rq is not None and okey(rq.lookups[x]) == got \
                         and (x in rq.names or x in rq.inherited):
                     cause = "comprehension-in-class"
+            if cause is None and got == ("Module", 0, 0) and "global" in facts.binding_kinds(tree, x) \
+                    and not (facts.binding_kinds(tree, x) - {"global"}):
+                # a global statement at module level for a name the module never binds: rope records a binding
+                cause = "module-level-global-unbound"
             if cause is None:
                 # global declarations rope does not honour
                 decl = [s for s in py_scopes if "global" in facts.binding_kinds(s.node, x)]
@@ -875,6 +915,8 @@ CODE_TEXT = {
     13: "SPEC vs CPython: names of a scope differ",
     14: "SPEC vs CPython: a resolution differs",
     21: "inside the theorems' domain but MODEL and SPEC trees differ",
+    22: "inside the domain of C15_scope_ends_agree but MODEL and SPEC end lines differ",
+    25: "inside the domain of C15_scope_for_line but MODEL and SPEC disagree on the scope holding a line",
     23: "inside the theorems' domain but MODEL and SPEC names differ",
     24: "inside the theorems' domain but a MODEL lookup and the SPEC resolution differ",
 }
@@ -1059,7 +1101,7 @@ def check_modules(ctx, sources, stream):
     for s in range(0, len(todo), shard):
         terms = [case_term(o.tr, o.idents, o.rope_scopes, o.rope_lines, o.py_scopes) for o in todo[s:s + shard]]
         bodies.append(HEADER + "Definition cases : list case := [\n%s\n].\nEval vm_compute in (mismatches cases).\n"
-                      "Eval vm_compute in (in_domain cases).\n" % ";\n".join(terms))
+                      "Eval vm_compute in (in_domains cases).\n" % ";\n".join(terms))
     outs = ctx.coq_files_parallel(bodies) if bodies else []
     codes = {}
     domain = {}
@@ -1075,6 +1117,7 @@ def check_modules(ctx, sources, stream):
     for idx, o in enumerate(todo):
         o.code = codes.get(idx, 0)
         o.in_fragment = bool(domain.get(idx, 0))
+        o.domain_level = domain.get(idx, 0)
     for o in obs:
         if not o.in_model_domain:
             o.code = 0
@@ -1091,6 +1134,10 @@ def check_modules(ctx, sources, stream):
         if o.in_fragment:
             n_dom += 1
             ctx.count(stream + ":inside-theorem-domain")
+            if getattr(o, "domain_level", 0) >= 2:
+                ctx.count(stream + ":inside-domain-of-C15_scope_ends_agree")
+            if getattr(o, "domain_level", 0) >= 3:
+                ctx.count(stream + ":inside-domain-of-C15_scope_for_line")
         for c in causes:
             ctx.count(stream + ":disagreement:" + c)
         if not o.dis:
@@ -1098,9 +1145,15 @@ def check_modules(ctx, sources, stream):
         base = {"kind": "module", "src": o.src}
         # oracle verdicts: one report per distinct cause
         known = {f.get("signature") for f in ctx.findings if f.get("property") == PROPERTY}
+        # a failure is attributed to a known finding only if the MODEL predicts it: inside the model's domain the
+        # case must have passed the comparison inside Coq (model = rope on every observable, spec = CPython), so
+        # that rope's deviation from CPython is exactly the model's deviation from the spec
+        predicted = (not o.in_model_domain) or o.code in (0, 9)
         for c in causes:
             first = [d for d in o.dis if d["cause"] == c][0]
-            rep = dict(base, focus=c, disagreement=first, all_causes=causes)
+            rep = dict(base, focus=c if predicted else "unpredicted:" + c, disagreement=first, all_causes=causes)
+            if not predicted:
+                rep["note"] = "the model does not reproduce rope's observables on this module (Coq code %d)" % o.code
             if c not in known and len(ctx.violations) < 3:
                 small = shrink(o.src, c, first["what"])
                 if small != o.src:
@@ -1122,7 +1175,7 @@ def check_modules(ctx, sources, stream):
             what = CODE_TEXT.get(o.code, "code %d" % o.code)
             if o.code in (11, 12, 13, 14):
                 broken = "SPEC coq/C15/Scoping.v disagrees with CPython's symtable on this module (the spec or the translator is wrong)"
-            elif o.code in (21, 23, 24):
+            elif o.code in (21, 22, 23, 24, 25):
                 broken = "the MODEL and the SPEC differ on a module inside in_fragment_C15: a theorem of coq/Props/C15.v would be false"
             else:
                 broken = ("correspondence RopeVerif.C15.Runner.run_case: MODEL coq/C15/RopeScopes.v vs rope "
@@ -1253,6 +1306,30 @@ EXAMPLE_SOURCE = (
 )
 
 
+EXAMPLE_ONELINERS = (
+    "class K:\n"
+    "    def defaults(self): return dict(\n"
+    "        a=1,\n"
+    "    b=2)\n"
+    "    def other(self):\n"
+    "        if self:\n"
+    "            return 1\n"
+    "\n"
+    "        # trailing comment\n"
+    "    class Inner: v = [\n"
+    "        1,\n"
+    "        2]\n"
+    "    w = 3\n"
+    "def top(): return (1 +\n"
+    "  2)\n"
+    "z = [i\n"
+    "     for i in K]\n"
+    "def cont(): x = 1 + \\\n"
+    "    2\n"
+    "y = 1\n"
+)
+
+
 def write_witnesses(path=None):
     """Regenerates coq/C15/Witnesses.v from findings.d/C15.json (run by hand when a replay input changes):
     /venv/bin/python -c 'from harness import c15; c15.write_witnesses()'"""
@@ -1270,6 +1347,8 @@ Import ListNotations.
     items = [(f["signature"].replace("-", "_"), f["title"], json.load(open(os.path.join(VERIF, f["replay"])))["src"])
              for f in fd["open"] if f["signature"] != "superclass-inference-crash"]
     items.append(("example", "a module inside the domain of the theorems (non-vacuity examples)", EXAMPLE_SOURCE))
+    items.append(("oneliners", "one-line definitions whose body statement continues over several physical lines "
+                  "(non-vacuity of the layout hypothesis)", EXAMPLE_ONELINERS))
     for name, title, src in items:
         tr = c15_gen.to_gallina(src)
         out.append("(* %s\n   source:\n%s   identifiers: %s *)" % (
